@@ -145,6 +145,16 @@ theorem shape_of {n : Nat} {g : G} (q : Quiet n g) (h : ShapeN n g) : Shape g :=
     · rw [(q j (Nat.le_of_not_lt hj)).2] at htr'; cases htr'
   · rw [(q i (Nat.le_of_not_lt hi)).2] at htr; cases htr
 
+/-- the decidable check is complete: it rejects no run that meets `Good` (so a `not-good` verdict of the driver is a
+    real failure of a hypothesis, not an artefact of the bound `n`) -/
+theorem goodN_of {n : Nat} : ∀ (sched : List (Nat × List Nat)) (g : G), Good g sched → GoodN n g sched
+  | [], _, h => ⟨fun i _ tr htr hw hne => h.1 i tr hw htr hne,
+                 fun i _ tr htr => ⟨(h.2.1 i tr htr).1, (h.2.1 i tr htr).2.1, fun hadd j _ tr' htr' hne' => (h.2.1 i tr htr).2.2 hadd j tr' htr' hne'⟩,
+                 h.2.2⟩
+  | _ :: rest, _, h => ⟨fun i _ tr htr hw hne => h.1 i tr hw htr hne,
+                 fun i _ tr htr => ⟨(h.2.1 i tr htr).1, (h.2.1 i tr htr).2.1, fun hadd j _ tr' htr' hne' => (h.2.1 i tr htr).2.2 hadd j tr' htr' hne'⟩,
+                 h.2.2.1, h.2.2.2.1, goodN_of rest _ h.2.2.2.2⟩
+
 theorem good_of {n : Nat} : ∀ (sched : List (Nat × List Nat)) (g : G), Quiet n g → GoodN n g sched → Good g sched
   | [], _, q, h => ⟨covered_of q h.1, shape_of q h.2.1, h.2.2⟩
   | s :: rest, _, q, h => ⟨covered_of q h.1, shape_of q h.2.1, h.2.2.1, h.2.2.2.1, good_of rest _ (quiet_step h.2.2.1 q s.1 s.2) h.2.2.2.2⟩
